@@ -8,5 +8,27 @@ let handle toks =
       (match ints rest with
        | w :: n :: r -> pairs (sma (zl (take n r)) (z_of_int w))
        | _ -> "BAD")
+  | "find_peaks" :: rest ->
+      (match ints rest with
+       | gap :: lext :: rext :: mina :: minc :: maxd :: nch :: ng :: r ->
+           let gains = zl (take ng r) in
+           let r = drop ng r in
+           let nh = List.hd r in
+           let rec hits k l = if k = 0 then [] else
+             (match l with
+              | t :: len :: dt :: ch :: ar :: tl ->
+                  { ht = z_of_int t; hlen = z_of_int len; hdt = z_of_int dt; hch = z_of_int ch; harea = z_of_int ar }
+                  :: hits (k - 1) tl
+              | _ -> failwith "hits") in
+           let hs = hits nh (List.tl r) in
+           let p = { fp_gap = z_of_int gap; fp_lext = z_of_int lext; fp_rext = z_of_int rext;
+                     fp_min_area = z_of_int mina; fp_min_ch = z_of_int minc; fp_max_dur = z_of_int maxd } in
+           (match find_peaks p gains (nat_of_int nch) hs with
+            | Err e -> Printf.sprintf "err %d" (int_of_z e)
+            | Ok ps ->
+                String.concat " " ("ok" :: string_of_int (List.length ps) :: List.map (fun q ->
+                  join ([int_of_z q.pt; int_of_z q.plen; int_of_z q.pdt; int_of_z q.pnhits; int_of_z q.parea;
+                         int_of_z q.pmaxgap] @ List.map int_of_z q.papc)) ps))
+       | _ -> "BAD")
   | _ -> "UNKNOWN"
 let () = main_loop handle
